@@ -306,6 +306,22 @@ func (x *Exec) specForm(name string, e *ast.CallExpr, st *State, sp *SpecCtx) (V
 			return Value{Term: False}, true
 		}
 		return bv(And(Select(m.Dom, k1.Term), Select(Select(m.Dom2, k1.Term), k2.Term)))
+	case "ownedlocal":
+		// ownership: the pointer designates a variable declared in the body of the function under verification (an object
+		// owned by this call), not something reached through a parameter, a field or a callee's result
+		v := x.eval(e.Args[0], st, sp)
+		if v.Ptr == nil || v.Ptr.Opaque || len(v.Ptr.Idx) > 0 {
+			return bv(False)
+		}
+		for obj, key := range x.varNames {
+			if key != v.Ptr.Key {
+				continue
+			}
+			if vv, ok := obj.(*types.Var); ok && !vv.IsField() && x.unit.Body != nil && vv.Pos() >= x.unit.Body.Pos() && vv.Pos() <= x.unit.Body.End() {
+				return bv(True)
+			}
+		}
+		return bv(False)
 	case "isnil":
 		v := x.eval(e.Args[0], st, sp)
 		if v.Term != nil && v.Term.S.K == SU {
